@@ -141,6 +141,9 @@ def mask_grid_data_array(mask: xarray.Dataset, data_array: xarray.DataArray) -> 
             logger.debug(
                 "Masking data array %r with mask %r",
                 data_array.name, mask_name)
+            # The mask carries copies of the coordinate variables. Leave them behind,
+            # a data variable with the same name as one of them can not be masked otherwise.
+            mask_data_array = mask_data_array.reset_coords(drop=True)
             new_data_array = cast(xarray.DataArray, data_array.where(mask_data_array, other=fill_value))
             new_data_array.attrs = data_array.attrs
             new_data_array.encoding = data_array.encoding
